@@ -26,7 +26,7 @@ RULE = (
     "one_clip: every pair (annotated list, predicted list) with 0..2 events each; an annotated event = geometry in "
     "{none, A, B overlapping A, C disjoint} x tags; a predicted event = geometry x score vector over the 2-tag vocabulary "
     "(quick: 3 tag sets x 3 vectors; thorough: 5 x 10; both incl. out-of-vocabulary annotated and predicted tags). clips: two clip slots x "
-    "{both, only annotated, only predicted, absent} x 7 content presets each x both orders of the prediction list x 3 vocabularies. "
+    "{both, only annotated, only predicted, absent} x 8 content presets each x both orders of the prediction list x 3 vocabularies. "
     "Non-trivial = at least one annotated and one predicted event with geometry in an evaluated clip. State = case descriptor."
 )
 ASSUMPTIONS = [
@@ -76,6 +76,8 @@ PRESETS = [
     {"ann": [["A", ["t0"]], ["B", []]], "pred": [["I", [["t1", 0.5]]]]},
     {"ann": [["C", ["oov"]]], "pred": [["C", []], ["A", [["t0", 0.5]]], ["none", [["t1", 0.25]]]]},
     {"ann": [["M1", ["t0"]], ["A", ["t1"]]], "pred": [["M2", [["t0", 0.5]]], ["B", [["t1", 0.5]]]]},
+    # a tag that belongs to one of the three vocabularies only (out of vocabulary for the other two, whatever was evaluated before)
+    {"ann": [["A", ["t2"]]], "pred": [["A", [["t2", 0.5], ["t0", 0.25]]]]},
 ]
 PATTERNS = ["both", "ann", "pred", "absent"]
 
